@@ -349,42 +349,72 @@ func c04Misconfig(c *Ctx, notFwd int64) {
 
 	// constScrape hands the same reads to collectMetrics
 	if cs := c.needMethod("R-C04-4", "internal/corerad", "Metrics", "constScrape"); cs != nil {
-		for _, ci := range an.CallsIn(cs) {
-			if !an.CallIs(ci.Common(), PkgCorerad, "", "collectMetrics") {
-				continue
-			}
-			arg := c.XO.Of(ci.Common().Args[1])
-			flds := raHeader(arg)
-			ok := flds != nil
-			fact := arg.String()
-			if ok {
+		// decided per path (one loop iteration each), so that it does not matter whether the context is a
+		// literal at the call, a variable filled in step by step, or the result of a helper
+		nAdv, nCalls := 0, 0
+		allOK := true
+		fact := ""
+		var at ssa.CallInstruction
+		for _, p := range c.pathsO("R-C04-4", cs, an.PathOpts{EmitCut: true}) {
+			for _, ci := range callsOnPath(p, func(cc *ssa.CallCommon) bool { return an.CallIs(cc, PkgCorerad, "", "collectMetrics") }) {
+				nCalls++
+				at = ci
+				advertising := false
+				for _, a := range p.Atoms {
+					if a.Cond.IsField("Advertise") {
+						advertising = a.Pos
+					}
+				}
+				arg := p.Of(ci.Common().Args[1])
+				flds := raHeader(arg)
+				if flds == nil {
+					allOK = false
+					fact = arg.String()
+					continue
+				}
 				fwd, adv, ms := flds["Forwarding"], flds["Advertisement"], flds["Misconfigurations"]
 				fb, fidx := stripExtractP(fwd)
-				okF := fidx == 0 && exprCallIs(fb, PkgSystem, "State", "IPv6Forwarding")
-				okA, okM := false, false
-				var raCall *an.Expr
-				for _, alt := range altsOf(adv) {
-					if ab, aidx := stripExtract(alt); aidx == 0 && exprCallIs(ab, PkgConfig, "Interface", "RouterAdvertisement") {
-						okA = true
-						raCall = ab
+				okF := fwd != nil && fidx == 0 && exprCallIs(fb, PkgSystem, "State", "IPv6Forwarding")
+				ok := okF
+				if advertising {
+					nAdv++
+					okA, okM, okArg := false, false, false
+					var raCall *an.Expr
+					if adv != nil {
+						if ab, aidx := stripExtract(adv); aidx == 0 && exprCallIs(ab, PkgConfig, "Interface", "RouterAdvertisement") {
+							okA = true
+							raCall = ab
+						}
 					}
-				}
-				for _, alt := range altsOf(ms) {
-					if mb, midx := stripExtract(alt); midx == 1 && raCall != nil && sameValue(mb, raCall) {
-						okM = true
+					if ms != nil && raCall != nil {
+						if mb, midx := stripExtract(ms); midx == 1 && sameValue(mb, raCall) {
+							okM = true
+						}
 					}
+					if raCall != nil && len(raCall.Args) == 2 {
+						okArg = sameValue(raCall.Args[1], fwd)
+					}
+					ok = okF && okA && okM && okArg
+				} else {
+					// not advertising: no RA and no misconfiguration is reported
+					ok = okF && (adv == nil || exprIsNil(adv) || exprIsZero(adv)) && (ms == nil || exprIsNil(ms) || exprIsZero(ms))
 				}
-				okArg := false
-				if raCall != nil && len(raCall.Args) == 2 {
-					okArg = sameValue(raCall.Args[1], fwd)
+				if !ok {
+					allOK = false
+					fact = fmt.Sprintf("advertising=%v: Forwarding=%s Advertisement=%s Misconfigurations=%s", advertising, fwd, adv, ms)
 				}
-				ok = okF && okA && okM && okArg
-				fact = fmt.Sprintf("Forwarding=%s Advertisement=%s Misconfigurations=%s", fwd, adv, ms)
 			}
-			c.R.Check(ok, "R-C04-4", c.fname(cs)+":collectMetrics-argument", c.fname(cs), c.pos(ci.Pos()), fact,
-				"Forwarding is the IPv6Forwarding read passed to RouterAdvertisement; Advertisement and Misconfigurations are results #0/#1 of that same call",
-				"forwarding gauge / misconfiguration gauge do not describe the RA that would be sent")
 		}
+		if fact == "" {
+			fact = fmt.Sprintf("%d call(s) on enumerated paths, %d on advertising paths, all consistent", nCalls, nAdv)
+		}
+		pos := c.pos(cs.Pos())
+		if at != nil {
+			pos = c.pos(at.Pos())
+		}
+		c.R.Check(allOK && nAdv >= 1, "R-C04-4", c.fname(cs)+":collectMetrics-argument", c.fname(cs), pos, fact,
+			"Forwarding is the IPv6Forwarding read passed to RouterAdvertisement; Advertisement and Misconfigurations are results #0/#1 of that same call",
+			"forwarding gauge / misconfiguration gauge do not describe the RA that would be sent")
 	}
 	// collectMetrics exports the detail label
 	if cm := c.needFunc("R-C04-4", "internal/corerad", "collectMetrics"); cm != nil {
